@@ -194,7 +194,11 @@ func (q *Queue) Add(elem *queue.Elem) (err error) {
 			}
 			// non-inflight message
 			if i >= q.current {
-				pub := e.MessageWithID.(*queue.Publish)
+				pub, ok := e.MessageWithID.(*queue.Publish)
+				if !ok {
+					// an in-flight PUBREL that has not been drained yet after a reconnect
+					continue
+				}
 				// the oldest message that is queued, not in flight (before the in-flight
 				// entries have been replayed after a reconnect the cursor still points at them)
 				if pub.ID() == 0 && frontElem == nil {
